@@ -2,7 +2,7 @@
 From Coq Require Import List ZArith Bool.
 From Coq Require String.
 Import String.StringSyntax.
-From YS Require Import Base.Sexp Container.QueueWire Syntax.Indent.
+From YS Require Import Base.Sexp Container.QueueWire Syntax.Indent Yarn.RunnerWire.
 Import ListNotations.
 Local Open Scope string_scope.
 
@@ -12,6 +12,7 @@ Definition dispatch (e : sexp) : sexp :=
       if tag_is t "queue" then run_queue_case args
       else if tag_is t "stack" then run_stack_case args
       else if tag_is t "indent" then run_indent_case args
+      else if tag_is t "runner" then run_runner_case args
       else bad "unknown family"
   | None => bad "not a tagged list"
   end.
